@@ -15,7 +15,7 @@ variable {F : Type} [FloatOps F] [LawfulFloatOps F] [CompatLaws F]
 /-! ### order helpers -/
 
 theorem lt_of_lt_of_le {a b c : F} (h1 : lt a b = true) (h2 : le b c = true) : lt a c = true := by
-  have ⟨na, nb⟩ := LawfulFloatOps.lt_notNaN a b h1
+  have ⟨na, nb⟩ := CompatLaws.lt_notNaN a b h1
   have ⟨_, nc⟩ := LawfulFloatOps.le_notNaN b c h2
   rw [LawfulFloatOps.lt_iff a c na nc]
   rw [LawfulFloatOps.lt_iff a b na nb] at h1
@@ -26,7 +26,7 @@ theorem lt_of_lt_of_le {a b c : F} (h1 : lt a b = true) (h2 : le b c = true) : l
 
 theorem lt_of_le_of_lt {a b c : F} (h1 : le a b = true) (h2 : lt b c = true) : lt a c = true := by
   have ⟨na, nb⟩ := LawfulFloatOps.le_notNaN a b h1
-  have ⟨_, nc⟩ := LawfulFloatOps.lt_notNaN b c h2
+  have ⟨_, nc⟩ := CompatLaws.lt_notNaN b c h2
   rw [LawfulFloatOps.lt_iff a c na nc]
   rw [LawfulFloatOps.lt_iff b c nb nc] at h2
   cases hca : le c a
@@ -87,82 +87,113 @@ theorem doubleValidate_between {bmin bmax ar rr : F} (hb : (DType.double bmin bm
 theorem scaledCall_between {scale : F} (hs : isFinite scale = true) (hp : positive scale = true)
     {vlo vhi v : PVal F} {lo hi x rlo rhi : F}
     (hvlo : toFloat? vlo = some lo) (hvhi : toFloat? vhi = some hi) (hv : toFloat? v = some x)
-    (flo : isFinite lo = true) (fhi : isFinite hi = true)
     (h1 : scaledCall scale vlo = .ok rlo) (h2 : scaledCall scale vhi = .ok rhi)
     (hx1 : le lo x = true) (hx2 : le x hi = true) :
-    ∃ r, scaledCall scale v = .ok r := by
+    ∃ r, scaledCall scale v = .ok r ∧ le rlo r = true ∧ le r rhi = true := by
   obtain ⟨lo', klo, ylo, e1, gk1, gy1, r1, f1⟩ := scaledCall_ok h1
   obtain ⟨hi', khi, yhi, e2, gk2, gy2, r2, f2⟩ := scaledCall_ok h2
   rw [hvlo] at e1; injection e1 with e1; subst e1
   rw [hvhi] at e2; injection e2 with e2; subst e2
   have hpos := positive_iff hp
-  have fx := CompatLaws.finite_between lo x hi flo fhi hx1 hx2
   unfold gridIndex at gk1 gk2
-  have fd1 : isFinite (div lo scale) = true := by
-    have := LawfulFloatOps.round_isSome (div lo scale); rw [gk1] at this; simpa using this.symm
-  have fd2 : isFinite (div hi scale) = true := by
-    have := LawfulFloatOps.round_isSome (div hi scale); rw [gk2] at this; simpa using this.symm
-  have nx := CompatLaws.div_notNaN x scale fx hs hp
-  have d1 := LawfulFloatOps.div_mono lo x scale hx1 hs hpos (notNaN_of_finite fd1) nx
-  have d2 := LawfulFloatOps.div_mono x hi scale hx2 hs hpos nx (notNaN_of_finite fd2)
-  have fdx := CompatLaws.finite_between _ _ _ fd1 fd2 d1 d2
-  have hsome : (round (div x scale)).isSome = true := by rw [LawfulFloatOps.round_isSome]; exact fdx
-  obtain ⟨k, hk⟩ := Option.isSome_iff_exists.1 hsome
+  have d1 := LawfulFloatOps.div_mono lo x scale hx1 hs hpos
+  have d2 := LawfulFloatOps.div_mono x hi scale hx2 hs hpos
+  obtain ⟨k, hk⟩ := CompatLaws.round_between _ _ _ klo khi gk1 gk2 d1 d2
   obtain ⟨y, hy⟩ := LawfulFloatOps.round_ofInt _ _ hk
   have k1 := LawfulFloatOps.round_mono _ _ klo k d1 gk1 hk
   have k2 := LawfulFloatOps.round_mono _ _ k khi d2 hk gk2
   have y1 := LawfulFloatOps.ofInt_mono klo k ylo y k1 gy1 hy
   have y2 := LawfulFloatOps.ofInt_mono k khi y yhi k2 hy gy2
-  have fy := LawfulFloatOps.ofInt_finite _ _ hy
-  have m1 := LawfulFloatOps.mul_mono ylo y scale y1 hs hpos (LawfulFloatOps.ofInt_finite _ _ gy1) fy
-  have m2 := LawfulFloatOps.mul_mono y yhi scale y2 hs hpos fy (LawfulFloatOps.ofInt_finite _ _ gy2)
+  have m1 := LawfulFloatOps.mul_mono ylo y scale y1 hs hpos
+  have m2 := LawfulFloatOps.mul_mono y yhi scale y2 hs hpos
   have fm := CompatLaws.finite_between _ _ _ (r1 ▸ f1) (r2 ▸ f2) m1 m2
-  refine ⟨mul y scale, ?_⟩
+  refine ⟨mul y scale, ?_, r1 ▸ m1, r2 ▸ m2⟩
   unfold scaledCall gridIndex
   rw [hv]; simp only [hk, hy, fm, if_true]
 
-theorem scaledValidate_parts {scale bmin bmax : F} {v : PVal F} {x r : F} (hv : toFloat? v = some x)
-    (h : scaledValidate scale bmin bmax v = .ok r) :
-    (∃ c, scaledCall scale v = .ok c) ∧ lt (sub bmin scale) x = true ∧ lt x (add bmax scale) = true ∧
-    (∃ a b, scaledCall scale (.float bmin) = .ok a ∧ scaledCall scale (.float bmax) = .ok b) := by
+/-- a grid-aligned finite canonical limit is its own grid value -/
+theorem scaledCall_aligned {scale x : F} (hx : isFinite x = true) (hc : addZero x = x) (h : snap scale x = some x) :
+    scaledCall scale (.float x) = .ok x := by
+  unfold snap ofGrid at h
+  unfold scaledCall
+  simp only [toFloat?, hc]
+  cases hk : gridIndex scale x with
+  | none => rw [hk] at h; cases h
+  | some k =>
+    rw [hk] at h
+    simp only at h ⊢
+    cases hy : (ofInt k : Option F) with
+    | none => rw [hy] at h; cases h
+    | some y =>
+      rw [hy] at h
+      simp only at h ⊢
+      injection h with h
+      rw [h, hx]
+      rfl
+
+/-- with grid-aligned limits: what `scaledValidate` accepts lies in the open band `(min − scale, max + scale)` -/
+theorem scaledValidate_parts {scale bmin bmax ar rr : F} (hb : (DType.scaled scale bmin bmax ar rr).WF)
+    (hal : snap scale bmin = some bmin ∧ snap scale bmax = some bmax) {v : PVal F} {x r : F}
+    (hv : toFloat? v = some x) (h : scaledValidate scale bmin bmax v = .ok r) :
+    (∃ c, scaledCall scale v = .ok c) ∧ lt (sub bmin scale) x = true ∧ lt x (add bmax scale) = true := by
+  simp only [DType.WF] at hb
+  obtain ⟨fs, ps, fmin, fmax, _, cmin, cmax, _⟩ := hb
+  have ca := scaledCall_aligned fmin cmin hal.1
+  have cb := scaledCall_aligned fmax cmax hal.2
   unfold scaledValidate at h
   split at h
   · cases h
   · rename_i c hc
-    rw [hv] at h
+    refine ⟨⟨c, hc⟩, ?_⟩
+    rw [ca, cb] at h
     simp only at h
     split at h
-    · rename_i hb
-      simp only [Bool.and_eq_true] at hb
+    · rename_i hin
+      simp only [Bool.and_eq_true] at hin
+      obtain ⟨x', k, y, e, gk, gy, rc, _⟩ := scaledCall_ok hc
+      rw [hv] at e; injection e with e; subst e
+      unfold gridIndex at gk
+      exact ⟨CompatLaws.grid_ge_lt bmin scale x y k fmin fs ps gk gy (rc ▸ hin.1),
+        CompatLaws.grid_le_lt bmax scale x y k fmax fs ps gk gy (rc ▸ hin.2)⟩
+    · rw [hv] at h
+      simp only at h
       split at h
-      · rename_i a b ha hb'
-        exact ⟨⟨c, hc⟩, hb.1, hb.2, a, b, ha, hb'⟩
+      · rename_i hband
+        simpa using hband
       · cases h
-      · cases h
-    · cases h
 
-theorem scaledValidate_of_parts {scale bmin bmax : F} {v : PVal F} {x c a b : F} (hv : toFloat? v = some x)
-    (hc : scaledCall scale v = .ok c) (h1 : lt (sub bmin scale) x = true) (h2 : lt x (add bmax scale) = true)
-    (ha : scaledCall scale (.float bmin) = .ok a) (hb : scaledCall scale (.float bmax) = .ok b) :
+theorem scaledValidate_of_parts {scale bmin bmax ar rr : F} (hb : (DType.scaled scale bmin bmax ar rr).WF)
+    (hal : snap scale bmin = some bmin ∧ snap scale bmax = some bmax) {v : PVal F} {x c : F}
+    (hv : toFloat? v = some x) (hc : scaledCall scale v = .ok c)
+    (h1 : lt (sub bmin scale) x = true) (h2 : lt x (add bmax scale) = true) :
     ∃ r, scaledValidate scale bmin bmax v = .ok r := by
+  simp only [DType.WF] at hb
+  obtain ⟨fs, ps, fmin, fmax, _, cmin, cmax, _⟩ := hb
+  have ca := scaledCall_aligned fmin cmin hal.1
+  have cb := scaledCall_aligned fmax cmax hal.2
   unfold scaledValidate
-  rw [hc]; simp only [hv, h1, h2, ha, hb, Bool.and_self, if_true]
-  exact ⟨_, rfl⟩
+  rw [hc, ca, cb]
+  simp only
+  split
+  · exact ⟨_, rfl⟩
+  · rw [hv]; simp only [h1, h2, Bool.and_self, if_true]
+    exact ⟨_, rfl⟩
 
-/-- a scaled type that accepts two numbers accepts every number between them -/
+/-- a scaled type (grid-aligned limits) that accepts two numbers accepts every number between them -/
 theorem scaledValidate_between {scale bmin bmax ar rr : F} (hb : (DType.scaled scale bmin bmax ar rr).WF)
+    (hal : snap scale bmin = some bmin ∧ snap scale bmax = some bmax)
     {vlo vhi v : PVal F} {lo hi x rlo rhi : F}
     (hvlo : toFloat? vlo = some lo) (hvhi : toFloat? vhi = some hi) (hv : toFloat? v = some x)
-    (flo : isFinite lo = true) (fhi : isFinite hi = true)
     (h1 : scaledValidate scale bmin bmax vlo = .ok rlo) (h2 : scaledValidate scale bmin bmax vhi = .ok rhi)
     (hx1 : le lo x = true) (hx2 : le x hi = true) :
     ∃ r, scaledValidate scale bmin bmax v = .ok r := by
-  simp only [DType.WF] at hb
-  obtain ⟨fs, ps, _⟩ := hb
-  obtain ⟨⟨c1, hc1⟩, l1, _, a, b, ha, hb'⟩ := scaledValidate_parts hvlo h1
-  obtain ⟨⟨c2, hc2⟩, _, u2, _⟩ := scaledValidate_parts hvhi h2
-  obtain ⟨c, hc⟩ := scaledCall_between fs ps hvlo hvhi hv flo fhi hc1 hc2 hx1 hx2
-  exact scaledValidate_of_parts hv hc (lt_of_lt_of_le l1 hx1) (lt_of_le_of_lt hx2 u2) ha hb'
+  have hb' := hb
+  simp only [DType.WF] at hb'
+  obtain ⟨fs, ps, _⟩ := hb'
+  obtain ⟨⟨c1, hc1⟩, l1, _⟩ := scaledValidate_parts hb hal hvlo h1
+  obtain ⟨⟨c2, hc2⟩, _, u2⟩ := scaledValidate_parts hb hal hvhi h2
+  obtain ⟨c, hc, _⟩ := scaledCall_between fs ps hvlo hvhi hv hc1 hc2 hx1 hx2
+  exact scaledValidate_of_parts hb hal hv hc (lt_of_lt_of_le l1 hx1) (lt_of_le_of_lt hx2 u2)
 
 /-! ### numbers offered to a numeric type -/
 
@@ -203,7 +234,7 @@ def IsFloatKind : DType F → Prop
   | _ => False
 
 /-- a float-valued type that accepts two finite numbers accepts every number between them -/
-theorem floatKind_between {b : DType F} (hb : b.WF) (hk : IsFloatKind b) (hres : ResLeOne b)
+theorem floatKind_between {b : DType F} (hb : b.WF) (hk : IsFloatKind b) (hres : ResLeOne b) (hal : GridAligned b)
     {vlo vhi v : PVal F} {lo hi x : F}
     (hvlo : toFloat? vlo = some lo) (hvhi : toFloat? vhi = some hi) (hv : toFloat? v = some x)
     (flo : isFinite lo = true) (fhi : isFinite hi = true)
@@ -223,7 +254,8 @@ theorem floatKind_between {b : DType F} (hb : b.WF) (hk : IsFloatKind b) (hres :
     simp only [validate, conv] at h1 h2 ⊢
     obtain ⟨a1, e1, _⟩ := map_ok h1
     obtain ⟨a2, e2, _⟩ := map_ok h2
-    obtain ⟨r, hr⟩ := scaledValidate_between hb hvlo hvhi hv flo fhi e1 e2 hx1 hx2
+    simp only [GridAligned] at hal
+    obtain ⟨r, hr⟩ := scaledValidate_between hb hal hvlo hvhi hv e1 e2 hx1 hx2
     exact ⟨.float r, by rw [hr]; rfl⟩
 
 /-- the float a validated number was -/
@@ -240,19 +272,20 @@ theorem toFloat_of_validate {b : DType F} (hk : IsFloatKind b) {v r : PVal F} (h
     exact toFloat_of_scaledValidate e
 
 /-- float limits `lo ≤ hi` (canonical, finite) accepted ⇒ every float between them accepted -/
-theorem floats_between {b : DType F} (hb : b.WF) (hk : IsFloatKind b) (hres : ResLeOne b) {lo hi x : F}
+theorem floats_between {b : DType F} (hb : b.WF) (hk : IsFloatKind b) (hres : ResLeOne b) (hal : GridAligned b) {lo hi x : F}
     (flo : isFinite lo = true) (fhi : isFinite hi = true) (clo : addZero lo = lo) (chi : addZero hi = hi)
     (h : limitsValid b (.float lo) (.float hi) = .ok ())
     (hx1 : le lo x = true) (hx2 : le x hi = true) : ∃ r, validate b (.float x) none = .ok r := by
   obtain ⟨h1, h2⟩ := limitsValid_parts h
-  refine floatKind_between hb hk hres (lo := lo) (hi := hi) (x := addZero x) ?_ ?_ rfl flo fhi h1 h2 ?_ ?_
+  refine floatKind_between hb hk hres hal (lo := lo) (hi := hi) (x := addZero x) ?_ ?_ rfl flo fhi h1 h2 ?_ ?_
   · simp [toFloat?, clo]
   · simp [toFloat?, chi]
   · rw [CompatLaws.addZero_le_right]; exact hx1
   · rw [CompatLaws.addZero_le_left]; exact hx2
 
 /-- integer limits accepted by a float-valued type ⇒ every integer between them accepted -/
-theorem ints_between {b : DType F} (hb : b.WF) (hk : IsFloatKind b) (hres : ResLeOne b) {lo hi i : Int}
+theorem ints_between {b : DType F} (hb : b.WF) (hk : IsFloatKind b) (hres : ResLeOne b) (hal : GridAligned b)
+    {lo hi i : Int} (w1 : -DType.intLimit ≤ lo) (w2 : hi ≤ DType.intLimit)
     (h : limitsValid b (.int lo) (.int hi) = .ok ()) (h1 : lo ≤ i) (h2 : i ≤ hi) :
     ∃ r, validate b (.int i) none = .ok r := by
   obtain ⟨v1, v2⟩ := limitsValid_parts h
@@ -263,8 +296,8 @@ theorem ints_between {b : DType F} (hb : b.WF) (hk : IsFloatKind b) (hres : ResL
   have hlo' : (ofInt lo : Option F) = some xlo := by simpa [toFloat?] using hlo
   have hhi' : (ofInt hi : Option F) = some xhi := by simpa [toFloat?] using hhi
   obtain ⟨x, hx⟩ := CompatLaws.ofInt_between lo i hi xlo xhi hlo' hhi' h1 h2
-  exact floatKind_between hb hk hres hlo hhi (v := .int i) (x := x) (by simpa [toFloat?] using hx)
-    (LawfulFloatOps.ofInt_finite _ _ hlo') (LawfulFloatOps.ofInt_finite _ _ hhi') ⟨r1, e1⟩ ⟨r2, e2⟩
+  exact floatKind_between hb hk hres hal hlo hhi (v := .int i) (x := x) (by simpa [toFloat?] using hx)
+    (CompatLaws.ofInt_finite _ _ w1 (by omega) hlo') (CompatLaws.ofInt_finite _ _ (by omega) w2 hhi') ⟨r1, e1⟩ ⟨r2, e2⟩
     (LawfulFloatOps.ofInt_mono lo i xlo x h1 hlo' hx) (LawfulFloatOps.ofInt_mono i hi x xhi h2 hx hhi')
 
 theorem intValidate_int {bmin bmax i : Int} :
@@ -527,17 +560,17 @@ theorem compatFields_members : ∀ (ms ms' : List (String × DType F)), compatFi
 /-! ### soundness: mutual induction over the first datatype -/
 
 mutual
-theorem compat_sound : ∀ (a b : DType F), a.WF → b.WF → GridAligned a → ResLeOne b → OptionalRespected a b →
-    compatible a b = .ok () → ∀ v, InSet a v → ∃ r, validate b v none = .ok r
-  | .double amin amax _ _, b, ha, hb, _, hres, _, h, v, hv => by
+theorem compat_sound : ∀ (a b : DType F), a.WF → b.WF → GridAligned a → GridAligned b → ResLeOne b →
+    OptionalRespected a b → compatible a b = .ok () → ∀ v, InSet a v → ∃ r, validate b v none = .ok r
+  | .double amin amax _ _, b, ha, hb, _, hbl, hres, _, h, v, hv => by
     simp only [DType.WF] at ha
     obtain ⟨f1, f2, _, _, _, c1, c2, _⟩ := ha
     cases v <;> simp only [InSet, InSetG] at hv <;> try exact hv.elim
     case float x =>
       cases b <;> simp only [compatible] at h <;> try cases h
-      case double => exact floats_between hb trivial hres f1 f2 c1 c2 h hv.2.1 hv.2.2
-      case scaled => exact floats_between hb trivial hres f1 f2 c1 c2 h hv.2.1 hv.2.2
-  | .scaled s amin amax _ _, b, ha, hb, hal, hres, _, h, v, hv => by
+      case double => exact floats_between hb trivial hres hbl f1 f2 c1 c2 h hv.2.1 hv.2.2
+      case scaled => exact floats_between hb trivial hres hbl f1 f2 c1 c2 h hv.2.1 hv.2.2
+  | .scaled s amin amax _ _, b, ha, hb, hal, hbl, hres, _, h, v, hv => by
     simp only [DType.WF] at ha
     obtain ⟨_, _, f1, f2, _, c1, c2, _⟩ := ha
     simp only [GridAligned] at hal
@@ -546,15 +579,16 @@ theorem compat_sound : ∀ (a b : DType F), a.WF → b.WF → GridAligned a → 
       have hbs := hv.2
       simp only [BetweenSnapped, hal.1, hal.2] at hbs
       cases b <;> simp only [compatible] at h <;> try cases h
-      case double => exact floats_between hb trivial hres f1 f2 c1 c2 h hbs.1 hbs.2
-      case scaled => exact floats_between hb trivial hres f1 f2 c1 c2 h hbs.1 hbs.2
-  | .int amin amax, b, ha, hb, _, hres, _, h, v, hv => by
+      case double => exact floats_between hb trivial hres hbl f1 f2 c1 c2 h hbs.1 hbs.2
+      case scaled => exact floats_between hb trivial hres hbl f1 f2 c1 c2 h hbs.1 hbs.2
+  | .int amin amax, b, ha, hb, _, hbl, hres, _, h, v, hv => by
+    simp only [DType.WF] at ha
     cases v <;> simp only [InSet, InSetG] at hv <;> try exact hv.elim
     case int i =>
       cases b <;> simp only [compatible] at h <;> try cases h
       case int => exact ints_between_int h hv.1 hv.2
-      case double => exact ints_between hb trivial hres h hv.1 hv.2
-      case scaled => exact ints_between hb trivial hres h hv.1 hv.2
+      case double => exact ints_between hb trivial hres hbl ha.2.1 ha.2.2 h hv.1 hv.2
+      case scaled => exact ints_between hb trivial hres hbl ha.2.1 ha.2.2 h hv.1 hv.2
       case enum ms =>
         have := allFrom_ok _ _ h i hv.1 (by omega)
         obtain ⟨r, hr⟩ := check_ok this
@@ -563,19 +597,19 @@ theorem compat_sound : ∀ (a b : DType F), a.WF → b.WF → GridAligned a → 
         have := allFrom_ok _ _ h i hv.1 (by omega)
         obtain ⟨r, hr⟩ := check_ok this
         exact ⟨r, by simpa only [validate, call, conv] using hr⟩
-  | .bool, b, _, _, _, _, _, h, v, hv => by
+  | .bool, b, _, _, _, _, _, _, h, v, hv => by
     simp only [compatible] at h
     obtain ⟨h1, h2⟩ := limitsValid_parts h
     cases v <;> simp only [InSet, InSetG] at hv <;> try exact hv.elim
     case bool x => cases x <;> assumption
-  | .enum ms, b, _, _, _, _, _, h, v, hv => by
+  | .enum ms, b, _, _, _, _, _, _, h, v, hv => by
     simp only [compatible] at h
     cases v <;> simp only [InSet, InSetG] at hv <;> try exact hv.elim
     case enum n k =>
       have := allMembers_ok ms h (n, k) hv
       obtain ⟨r, hr⟩ := check_ok this
       exact ⟨r, call_enum_validate hr⟩
-  | .string a1 a2 u, b, _, _, _, _, _, h, v, hv => by
+  | .string a1 a2 u, b, _, _, _, _, _, _, h, v, hv => by
     cases v <;> simp only [InSet, InSetG] at hv <;> try exact hv.elim
     case str s =>
       cases b with
@@ -610,7 +644,7 @@ theorem compat_sound : ∀ (a b : DType F), a.WF → b.WF → GridAligned a → 
           simp only [validate, conv, stringCall, hasc, hnul, g1, g2, if_false, Bool.false_eq_true]
           rfl
       | _ => simp only [compatible] at h <;> cases h
-  | .blob a1 a2, b, _, _, _, _, _, h, v, hv => by
+  | .blob a1 a2, b, _, _, _, _, _, _, h, v, hv => by
     cases v <;> simp only [InSet, InSetG] at hv <;> try exact hv.elim
     case bytes s =>
       cases b with
@@ -626,7 +660,7 @@ theorem compat_sound : ∀ (a b : DType F), a.WF → b.WF → GridAligned a → 
           simp only [validate, conv, blobCall, g1, g2, if_false]
           rfl
       | _ => simp only [compatible] at h <;> cases h
-  | .array e a1 a2, b, ha, hb, hal, hres, hopt, h, v, hv => by
+  | .array e a1 a2, b, ha, hb, hal, hbl, hres, hopt, h, v, hv => by
     cases v <;> simp only [InSet, InSetG] at hv <;> try exact hv.elim
     case tuple vs =>
       cases b with
@@ -637,11 +671,11 @@ theorem compat_sound : ∀ (a b : DType F), a.WF → b.WF → GridAligned a → 
         · rename_i hc
           simp only [Bool.or_eq_true, decide_eq_true_eq, not_or, Nat.not_lt] at hc
           simp only [DType.WF] at ha hb
-          simp only [GridAligned] at hal
+          simp only [GridAligned] at hal hbl
           simp only [ResLeOne] at hres
           simp only [OptionalRespected] at hopt
           have hall : ∀ x ∈ vs, ∃ r, conv .validate e' x none = .ok r :=
-            fun x hx => compat_sound e e' ha.1 hb.1 hal hres hopt h x (hv.1 x hx)
+            fun x hx => compat_sound e e' ha.1 hb.1 hal hbl hres hopt h x (hv.1 x hx)
           obtain ⟨rs, hrs⟩ := mapPrev_all_ok vs hall
           refine ⟨.tuple rs, ?_⟩
           have g1 : ¬ vs.length < b1 := by omega
@@ -649,7 +683,7 @@ theorem compat_sound : ∀ (a b : DType F), a.WF → b.WF → GridAligned a → 
           simp only [validate, conv, seqItems?, g1, g2, if_false, prevItems, hrs, mapErr]
           rfl
       | _ => simp only [compatible] at h <;> cases h
-  | .tuple es, b, ha, hb, hal, hres, hopt, h, v, hv => by
+  | .tuple es, b, ha, hb, hal, hbl, hres, hopt, h, v, hv => by
     cases v <;> simp only [InSet, InSetG] at hv <;> try exact hv.elim
     case tuple vs =>
       cases b with
@@ -660,16 +694,16 @@ theorem compat_sound : ∀ (a b : DType F), a.WF → b.WF → GridAligned a → 
         · rename_i hlen
           simp only [ne_eq, Decidable.not_not] at hlen
           simp only [DType.WF] at ha hb
-          simp only [GridAligned] at hal
+          simp only [GridAligned] at hal hbl
           simp only [ResLeOne] at hres
           simp only [OptionalRespected] at hopt
-          obtain ⟨⟨rs, hrs⟩, hl⟩ := compatList_sound es es' ha.2 hb.2 hal hres hopt h vs hv
+          obtain ⟨⟨rs, hrs⟩, hl⟩ := compatList_sound es es' ha.2 hb.2 hal hbl hres hopt h vs hv
           refine ⟨.tuple rs, ?_⟩
           have g : ¬ vs.length ≠ es'.length := by have := zipInG_length es vs hv; simp; omega
           simp only [validate, conv, seqItems?, g, if_false, hrs, mapErr]
           rfl
       | _ => simp only [compatible] at h <;> cases h
-  | .struct ms opt c, b, ha, hb, hal, hres, hopt, h, v, hv => by
+  | .struct ms opt c, b, ha, hb, hal, hbl, hres, hopt, h, v, hv => by
     cases v <;> simp only [InSet, InSetG] at hv <;> try exact hv.elim
     case dict fields =>
       cases b with
@@ -681,11 +715,11 @@ theorem compat_sound : ∀ (a b : DType F), a.WF → b.WF → GridAligned a → 
           split at h
           · rename_i hmc
             simp only [DType.WF] at ha hb
-            simp only [GridAligned] at hal
+            simp only [GridAligned] at hal hbl
             simp only [ResLeOne] at hres
             simp only [OptionalRespected] at hopt
             obtain ⟨hmem, hnd, hmand⟩ := hv
-            have hfs := compatFields_sound ms ms' ha.2.2.2 hb.2.2.2 hal hres hopt.2 (by rw [hcf])
+            have hfs := compatFields_sound ms ms' ha.2.2.2 hb.2.2.2 hal hbl hres hopt.2 (by rw [hcf])
             have hall : ∀ kv ∈ fields, kv.2 = .none ∨ ∃ r, convMember .validate ms' kv.1 kv.2 = some (.ok r) :=
               fun kv hkv => Or.inr (hfs kv.1 kv.2 (hmem kv hkv))
             obtain ⟨res, hres'⟩ := foldFields_all_ok fields [] hall
@@ -718,36 +752,38 @@ theorem compat_sound : ∀ (a b : DType F), a.WF → b.WF → GridAligned a → 
           · cases h
       | _ => simp only [compatible] at h <;> cases h
 theorem compatList_sound : ∀ (es es' : List (DType F)), DType.WFList es → DType.WFList es' →
-    GridAlignedList es → ResLeOneList es' → OptionalRespectedList es es' → compatList es es' = .ok () →
+    GridAlignedList es → GridAlignedList es' → ResLeOneList es' → OptionalRespectedList es es' →
+    compatList es es' = .ok () →
     ∀ vs, ZipInG OnGrid es vs → (∃ rs, convTuple .validate es' vs none = .ok rs) ∧ True
-  | [], es', _, _, _, _, _, _, vs, hv => by
+  | [], es', _, _, _, _, _, _, _, vs, hv => by
     cases vs
     · cases es' <;> exact ⟨⟨[], by simp [convTuple]⟩, trivial⟩
     · simp [ZipInG] at hv
-  | t :: ts, [], _, _, _, _, _, _, vs, hv => ⟨⟨[], by simp [convTuple]⟩, trivial⟩
-  | t :: ts, t' :: ts', ha, hb, hal, hres, hopt, h, vs, hv => by
+  | t :: ts, [], _, _, _, _, _, _, _, vs, hv => ⟨⟨[], by simp [convTuple]⟩, trivial⟩
+  | t :: ts, t' :: ts', ha, hb, hal, hbl, hres, hopt, h, vs, hv => by
     cases vs with
     | nil => simp [ZipInG] at hv
     | cons x xs =>
       simp only [ZipInG] at hv
       simp only [DType.WFList] at ha hb
-      simp only [GridAlignedList] at hal
+      simp only [GridAlignedList] at hal hbl
       simp only [ResLeOneList] at hres
       simp only [OptionalRespectedList] at hopt
       simp only [compatList] at h
       split at h
       · cases h
       · rename_i hc
-        obtain ⟨r, hr⟩ := compat_sound t t' ha.1 hb.1 hal.1 hres.1 hopt.1 (by rw [hc]) x hv.1
-        obtain ⟨⟨rs, hrs⟩, _⟩ := compatList_sound ts ts' ha.2 hb.2 hal.2 hres.2 hopt.2 h xs hv.2
+        obtain ⟨r, hr⟩ := compat_sound t t' ha.1 hb.1 hal.1 hbl.1 hres.1 hopt.1 (by rw [hc]) x hv.1
+        obtain ⟨⟨rs, hrs⟩, _⟩ := compatList_sound ts ts' ha.2 hb.2 hal.2 hbl.2 hres.2 hopt.2 h xs hv.2
         refine ⟨⟨r :: rs, ?_⟩, trivial⟩
         simp only [validate] at hr
         simp only [convTuple, hr, hrs]
 theorem compatFields_sound : ∀ (ms ms' : List (String × DType F)), DType.WFFields ms → DType.WFFields ms' →
-    GridAlignedFields ms → ResLeOneFields ms' → OptionalRespectedFields ms ms' → compatFields ms ms' = .ok () →
+    GridAlignedFields ms → GridAlignedFields ms' → ResLeOneFields ms' → OptionalRespectedFields ms ms' →
+    compatFields ms ms' = .ok () →
     ∀ k x, MemberInG OnGrid ms k x → ∃ r, convMember .validate ms' k x = some (.ok r)
-  | [], _, _, _, _, _, _, _, k, x, hm => by simp [MemberInG] at hm
-  | (k0, t) :: rest, ms', ha, hb, hal, hres, hopt, h, k, x, hm => by
+  | [], _, _, _, _, _, _, _, _, k, x, hm => by simp [MemberInG] at hm
+  | (k0, t) :: rest, ms', ha, hb, hal, hbl, hres, hopt, h, k, x, hm => by
     simp only [DType.WFFields] at ha
     simp only [GridAlignedFields] at hal
     simp only [OptionalRespectedFields] at hopt
@@ -764,10 +800,10 @@ theorem compatFields_sound : ∀ (ms ms' : List (String × DType F)), DType.WFFi
           simp only [if_true] at hm
           have ho : OptionalRespected t t' := by have := hopt.1; rw [ht'] at this; exact this
           obtain ⟨r, hr⟩ := compat_sound t t' ha.1 (member_wf ms' _ t' hb ht') hal.1
-            (member_resLeOne ms' _ t' hres ht') ho (by rw [hc]) x hm
+            (member_aligned ms' _ t' hbl ht') (member_resLeOne ms' _ t' hres ht') ho (by rw [hc]) x hm
           exact ⟨r, by rw [convMember_of_member .validate ms' _ t' x ht']; simp only [validate] at hr; rw [hr]⟩
         · simp only [e, if_false] at hm
-          exact compatFields_sound rest ms' ha.2 hb hal.2 hres hopt.2 h k x hm
+          exact compatFields_sound rest ms' ha.2 hb hal.2 hbl hres hopt.2 h k x hm
 end
 
 end Frappy.Lemmas.C03
